@@ -1045,6 +1045,7 @@ func (g *c11Gen) next() c11Op {
 			c11Op{Op: "verify", Node: e.list.Node, Cred: &c},
 			c11Op{Op: "verify", Node: 1 - e.list.Node, Cred: &c},
 			c11Op{Op: "serve", Node: e.list.Node, Issuer: e.list.Issuer, Page: e.list.Page})
+		g.nticks++
 		return c11Op{Op: "tick", Secs: []int{71, 72, 72, 72, 96}[r.Intn(5)]*900 + 60}
 	case k < 75:
 		u := g.someList(r.Intn(2))
